@@ -6,11 +6,13 @@ dyld-cache code, `external_file.rs`) reach the chunk cache — property C13, thi
 * `FileContentsWrapper::read_entire_data` (:980-982);
 * `impl ReadRef for &FileContentsWrapper` (:1006-1025): `read_bytes_at` / `read_bytes_at_until` with the
   error of the `FileContents` method discarded (`Err(())`);
-* `RangeReadRef` (:1038-1095): `full_range` (:984), `range` (:988), nested `make_subrange` (:1056) and its
+* `RangeReadRef` (:1038-1101): `full_range` (:984), `range` (:988), nested `make_subrange` (:1056) and its
   `ReadRef` impl — offsets shifted by `range_start` with `checked_add`; **`range_size` is never consulted by
   the read methods** (a view can read past its own end as long as the file has the bytes);
-  `make_subrange` adds `self.range_start + start` *unchecked*: in a build with overflow checks (the harness's
-  debug profile) it panics, in a release build it wraps. The model has the panic (`View.makeSubrange = none`).
+  `make_subrange` adds `self.range_start.saturating_add(start)` (repaired by 989a9c95: before, the addition was
+  unchecked — a panic with overflow checks, a wrapped offset in release; kept as `View.makeSubrangeLegacy` for
+  `C13_legacy_counterexample_subrange_overflow`): a chain of sub-ranges whose starts reach `2^64` yields a
+  view that starts at `u64::MAX`, whose non-empty reads fail cleanly in `checked_add` / the overflow check.
 
 `FileContentsWrapper::len` is `file_contents.len()` taken once in `new` (:912); for
 `FileContentsWithChunkedCaching` that is the immutable `file_len`, i.e. `St.fileLen`.
@@ -18,7 +20,7 @@ dyld-cache code, `external_file.rs`) reach the chunk cache — property C13, thi
 (feature `partial_read_stats` off) and are what `CC.step` already models.
 
 Not reachable through the crate's public API and therefore neither driven nor modelled: `FileContentsCursor`
-(:1097-1160, used by the jitdump reader only).
+(:1103-1166, used by the jitdump reader only).
 Core Lean only.
 -/
 namespace CC
@@ -29,18 +31,28 @@ structure View where
   size : Nat
 deriving Repr, DecidableEq
 
-/-- `make_subrange` (:1056-1058): `Self::new(self.original_readref, self.range_start + start, size)`;
-`none` = the unchecked `u64` addition overflows (panic with overflow checks; wraps in release) -/
-def View.makeSubrange (v : View) (start size : Nat) : Option View :=
-  if U64 ≤ v.start + start then none else some ⟨v.start + start, size⟩
+/-- `make_subrange` (:1056-1064, repaired by 989a9c95):
+`Self::new(self.original_readref, self.range_start.saturating_add(start), size)` -/
+def View.makeSubrange (v : View) (start size : Nat) : View :=
+  ⟨min (v.start + start) (U64 - 1), size⟩
 
 /-- a chain of nested `make_subrange` calls -/
-def View.build (v : View) : List (Nat × Nat) → Option View
+def View.build (v : View) : List (Nat × Nat) → View
+  | [] => v
+  | (s, z) :: rest => (v.makeSubrange s z).build rest
+
+/-- The code before 989a9c95: `self.range_start + start` unchecked; `none` = the `u64` addition overflows (a
+panic with overflow checks; a release build wraps and reads at the wrapped offset). Kept only for
+`C13_legacy_counterexample_subrange_overflow`. -/
+def View.makeSubrangeLegacy (v : View) (start size : Nat) : Option View :=
+  if U64 ≤ v.start + start then none else some ⟨v.start + start, size⟩
+
+def View.buildLegacy (v : View) : List (Nat × Nat) → Option View
   | [] => some v
   | (s, z) :: rest =>
-    match v.makeSubrange s z with
+    match v.makeSubrangeLegacy s z with
     | none => none
-    | some v' => v'.build rest
+    | some v' => v'.buildLegacy rest
 
 /-- `.map_err(|_| ())` (:1014, :1021) -/
 def discardErr {α : Type} : Out α → Out α
@@ -67,19 +79,25 @@ def vstep (c : Cfg) (st : St) : VOp → St × Out (List UInt8)
   | .wread o n => let r := readBytesAt c st o n; (r.1, discardErr r.2)  -- :1013-1017
   | .wuntil r d => let x := readBytesAtUntil c st r d; (x.1, discardErr x.2)   -- :1020-1024
   | .vread base subs o n =>
-    match (viewBase st.fileLen base).build subs with
-    | none => (st, .panic)                                           -- :1057 overflow
-    | some v =>
-      if U64 ≤ v.start + o then (st, .err .discarded)                -- checked_add :1081
-      else let r := readBytesAt c st (v.start + o) n; (r.1, discardErr r.2)    -- :1082 → :1013
+    let v := (viewBase st.fileLen base).build subs
+    if U64 ≤ v.start + o then (st, .err .discarded)                  -- checked_add :1087
+    else let r := readBytesAt c st (v.start + o) n; (r.1, discardErr r.2)      -- :1088 → :1013
   | .vuntil base subs r d =>
-    match (viewBase st.fileLen base).build subs with
-    | none => (st, .panic)
-    | some v =>
-      if r.hi < r.lo then (st, .err .discarded)                      -- :1087
-      else if U64 ≤ v.start + r.lo then (st, .err .discarded)        -- :1090
-      else if U64 ≤ v.start + r.hi then (st, .err .discarded)        -- :1091
-      else let x := readBytesAtUntil c st ⟨v.start + r.lo, v.start + r.hi⟩ d; (x.1, discardErr x.2)  -- :1093
+    let v := (viewBase st.fileLen base).build subs
+    if r.hi < r.lo then (st, .err .discarded)                        -- :1093
+    else if U64 ≤ v.start + r.lo then (st, .err .discarded)          -- :1096
+    else if U64 ≤ v.start + r.hi then (st, .err .discarded)          -- :1097
+    else let x := readBytesAtUntil c st ⟨v.start + r.lo, v.start + r.hi⟩ d; (x.1, discardErr x.2)  -- :1099
+
+/-- the pre-fix `RangeReadRef::read_bytes_at` through a `make_subrange` chain (only for the legacy
+counterexample) -/
+def vreadLegacy (c : Cfg) (st : St) (base : Option (Nat × Nat)) (subs : List (Nat × Nat)) (o n : Nat) :
+    St × Out (List UInt8) :=
+  match (viewBase st.fileLen base).buildLegacy subs with
+  | none => (st, .panic)
+  | some v =>
+    if U64 ≤ v.start + o then (st, .err .discarded)
+    else let r := readBytesAt c st (v.start + o) n; (r.1, discardErr r.2)
 
 /-- calls of either layer -/
 inductive XOp
@@ -97,9 +115,10 @@ def xrun (c : Cfg) (fileLen : Nat) (ops : List XOp) : St :=
 
 /-! ### Specification side -/
 
-/-- where a view starts in the file: the sum of all the starts -/
+/-- where a view starts in the file: the sum of all the starts, capped at `u64::MAX` by `make_subrange` -/
 def viewStart (base : Option (Nat × Nat)) (subs : List (Nat × Nat)) : Nat :=
-  (match base with | none => 0 | some (s, _) => s) + (subs.map (·.1)).sum
+  let b := match base with | none => 0 | some (s, _) => s
+  if subs.isEmpty then b else min (b + (subs.map (·.1)).sum) (U64 - 1)
 
 /-- what a call of the shared.rs layer must return, from the file alone: the cache-level answer at the shifted
 offset, with errors reduced to `Err(())`; shifted offsets that overflow `u64` fail cleanly -/
@@ -120,8 +139,8 @@ def VOp.under (fileLen : Nat) : VOp → Op
   | .vread base subs o n => .read (viewStart base subs + o) n
   | .vuntil base subs r d => .until_ ⟨viewStart base subs + r.lo, viewStart base subs + r.hi⟩ d
 
-/-- the wrapper refuses the call before it reaches the cache (shifted offset overflows `u64`, :1081 / :1090 /
-:1091; inverted range, :1087) -/
+/-- the wrapper refuses the call before it reaches the cache (shifted offset overflows `u64`, :1087 / :1096 /
+:1097; inverted range, :1093) -/
 def VOp.refused : VOp → Bool
   | .vread base subs o _ => decide (U64 ≤ viewStart base subs + o)
   | .vuntil base subs r _ =>
@@ -138,12 +157,6 @@ def VOp.srcErr : VOp → Err
   | .entire => .source
   | _ => .discarded
 
-/-- the nested `make_subrange` calls of a view call do not overflow `u64` -/
-def VOp.startOk : VOp → Prop
-  | .vread base subs _ _ => viewStart base subs < U64
-  | .vuntil base subs _ _ => viewStart base subs < U64
-  | _ => True
-
 def XOp.under (fileLen : Nat) : XOp → Op
   | .base op => op
   | .view v => v.under fileLen
@@ -151,10 +164,6 @@ def XOp.under (fileLen : Nat) : XOp → Op
 def XOp.srcErr : XOp → Err
   | .base _ => .source
   | .view v => v.srcErr
-
-def XOp.startOk : XOp → Prop
-  | .base _ => True
-  | .view v => v.startOk
 
 def xspec (F : List UInt8) (src : Nat → Nat → Option (List UInt8)) : XOp → Out (List UInt8)
   | .base op => spec F src op
